@@ -2,7 +2,7 @@
 # usage: tools/try_seed.sh <patch.diff> <PROP> [check args...]
 # Applies the patch to /repo, runs bin/check, and ALWAYS restores /repo afterwards.
 set -u
-patch=$1; prop=$2; shift 2
+patch=$(readlink -f "$1"); prop=$2; shift 2
 cd /repo || exit 9
 if ! git diff --quiet; then echo "try_seed: /repo has uncommitted changes"; exit 9; fi
 git apply "$patch" || { echo "try_seed: patch does not apply"; exit 9; }
